@@ -243,6 +243,10 @@ def gen_valid_headers(rng, n, max_payload=600, big_every=200):
             # IPv4-mapped / special IPv6 values, alone and paired
             m = lambda: special_v6(rng) if rng.random() < 0.8 else rand_bytes(rng, 16)
             ab = m() + m() + rand_bytes(rng, 4)
+            if i % 9 == 0:
+                # both endpoints of the same special class
+                cls = rng.choice([bytes(10) + b"\xff\xff", bytes(12), b"\x00\x64\xff\x9b" + bytes(8)])
+                ab = cls + rand_bytes(rng, 4) + cls + special_v4(rng) + rand_bytes(rng, 4)
         elif size == 12 and i % 3 == 0:
             ab = special_v4(rng) + special_v4(rng) + rng.choice([b"\x00\x00\xff\xff", b"\xff\xff\x00\x00", rand_bytes(rng, 4)])
         elif size == 216 and i % 2 == 0:
